@@ -566,6 +566,15 @@ func checkReplayCursor(w *World, r *Report, pr *procRoles) {
 						ok = true
 					}
 				}
+				// or in one go: copy(p.mbuffer, msgs[cursor:...])
+				if c, isC := in.(*ssa.Call); isC {
+					if args, isCopy := isBuiltinCall(c, "copy"); isCopy && len(args) == 2 {
+						dp, sp := w.pathOf(args[0]), w.pathOf(args[1])
+						if (strings.HasSuffix(dp, ".mbuffer") || strings.HasPrefix(dp, "makeslice(")) && strings.HasPrefix(sp, srcPrefix) && strings.Contains(sp, "["+curTok+":") {
+							ok = true
+						}
+					}
+				}
 			}
 		}
 		// and the buffer is a fresh slice sized from the cursor, allocated before the copy
@@ -584,6 +593,18 @@ func checkReplayCursor(w *World, r *Report, pr *procRoles) {
 							}
 						}
 					}
+				}
+			}
+		}
+		// ... and on every path of the handler before it restarts (a buffer that is only assigned when something is
+		// left keeps the messages of an earlier crash, which are then replayed a second time)
+		if ok && alloc && pr.restartFn != nil {
+			hg := w.FGI(rec)
+			evSt := EvStoreField(pr.procT, "mbuffer")
+			S := w.Nodes(hg, evSt, true)
+			for _, ci := range w.callsIn(rec, EvCall("restart", pr.restartFn)) {
+				if n, in := hg.idx[ci.(ssa.Instruction)]; in && !hg.Before(S, n) {
+					alloc = false
 				}
 			}
 		}
